@@ -52,7 +52,23 @@ def run_cases(chk, binary, cases, keep=True):
         if keep:
             env["VERIF_KEEP_EVENTS"] = "1"
         rc, txt = vlib.run_test(binary, "TestVerifNumbering", env, timeout=3000)
-        if rc != 0 or not os.path.exists(out):
+        if rc != 0 and os.path.exists(out) and "WARNING: DATA RACE" in txt and "panic:" not in txt:
+            # the race detector fails the test binary whatever the race is about: judge the reports instead.  A report counts
+            # for C09 when one of the two racing accesses is in the code that allocates or imports / exports record numbers;
+            # any other report is passed on as information (it is not what this property is about)
+            for rep in txt.split("WARNING: DATA RACE")[1:]:
+                rep = rep.split("==================")[0]
+                tops = []
+                for block in rep.split("\n\n")[:2]:
+                    fr = [l.strip() for l in block.splitlines() if l.startswith("  ") and "(" in l and not l.strip().startswith("/")]
+                    tops.append(fr[0] if fr else "?")
+                text = " | ".join(tops)
+                if any(k in text for k in ("nextLocalSequenceNumber", "SequenceNumber", "sealRecord", "LocalEpoch", "serialize", "Clone")):
+                    chk.violation({"kind": "data-race", "what": "unsynchronised accesses in the record-numbering path: " + text,
+                                   "report": rep[:3000]})
+                else:
+                    chk.note("data race reported by the race detector OUTSIDE the record-numbering path (not judged by C09): " + text)
+        elif rc != 0 or not os.path.exists(out):
             raise vlib.Inconclusive("numbering harness failed: " + txt[-2000:])
         rows = vlib.read_ndjson(out)
         if len(rows) != len(cases):
